@@ -160,6 +160,7 @@ def _worker(rng):
     hashes = []
     counters: Dict[str, float] = {}
     viols = []
+    persig = {}
     skipped = 0
     if stage.reset is not None:
         stage.reset()
@@ -176,8 +177,12 @@ def _worker(rng):
                 counters[k] = max(counters.get(k, 0), v)
             else:
                 counters[k] = counters.get(k, 0) + v
-        if not r.ok and len(viols) < 5:
-            viols.append({"index": i, "case": jsonable(case), "msg": r.msg[:4000], "sig": jsonable(r.sig)})
+        if not r.ok:
+            # keep the first few violations PER SIGNATURE so known findings cannot crowd out a new one
+            sk = repr(sorted((r.sig or {}).items(), key=repr))
+            persig[sk] = persig.get(sk, 0) + 1
+            if persig[sk] <= 3 and len(viols) < 200:
+                viols.append({"index": i, "case": jsonable(case), "msg": r.msg[:4000], "sig": jsonable(r.sig)})
     return n, b"".join(hashes), counters, viols, skipped
 
 
